@@ -35,6 +35,7 @@ const crcAxioms = `
 `
 
 const unwrapDecl = "(declare-fun unwrap ((_ BitVec 32)) (_ BitVec 32))\n"
+const errmsgDecl = "(declare-fun errmsg ((_ BitVec 32)) (_ BitVec 32))\n"
 const strlenDecl = "(declare-fun strlen ((_ BitVec 32)) (_ BitVec 64))\n(assert (forall ((s (_ BitVec 32))) (! (and (bvsle #x0000000000000000 (strlen s)) (bvslt (strlen s) #x0000010000000000)) :pattern ((strlen s)))))\n"
 
 // specPreludes maps an uninterpreted symbol to the SMT text that declares and
@@ -43,9 +44,10 @@ var specPreludes = map[string]string{
 	"crcU":   crcAxioms,
 	"unwrap": unwrapDecl,
 	"strlen": strlenDecl,
+	"errmsg": errmsgDecl,
 }
 
-var specPreludeOrder = []string{"unwrap", "strlen", "crcU"}
+var specPreludeOrder = []string{"unwrap", "strlen", "errmsg", "crcU"}
 
 // specPreludeAlias: additional symbols that pull in a prelude.
 var specPreludeAlias = map[string]string{}
